@@ -825,7 +825,7 @@ func runC04(r *rt.Runner) {
 		})
 	}
 	// generated sequences
-	nGen := r.N(200000, 3000000)
+	nGen := r.N(500000, 5000000)
 	for k := 0; k < nGen; k++ {
 		r.Case("generated", func(c *rt.C) {
 			g := &g4{rng: c.Rand(), feat: map[string]bool{}}
